@@ -28,7 +28,7 @@ FIXED = SER + "_array.FixedLengthArrayType"
 VARIABLE = SER + "_array.VariableLengthArrayType"
 STRUCT = SER + "_composite.StructureType"
 UNION = SER + "_composite.UnionType"
-LEAN = ["Basic.lean", "Bounds.lean"]
+LEAN = ["Basic.lean", "Bounds.lean", "Layout.lean"]
 
 
 # ------------------------------------------------------------------------------------------------ the Specification
@@ -371,10 +371,9 @@ inline_ok(ARRAY + ".element_type", ARRAY + ".capacity", VARIABLE + ".length_fiel
 @contract(ARRAY + ".__init__", props=P + ["C05"])
 class _ArrayInit:
     params = dict(element_type=ObjOf(SERIALIZABLE), capacity=Int)
-    raises = {"InvalidNumberOfElementsError": lambda s: s.capacity < 1}
-
-    def pre(s):
-        return {"element-serializable": NOT(ISINST(s.element_type, "ServiceType"))}
+    raises = {"InvalidNumberOfElementsError": lambda s: s.capacity < 1,
+              # a service type has no layout (its bit_length_set raises TypeError): not an element type
+              "InvalidElementTypeError": lambda s: ISINST(s.element_type, "ServiceType")}
 
     def post(s):
         return {"fields": AND(s.self._element_type.ref == s.element_type.ref if smt() else s.self._element_type is s.element_type,
@@ -384,10 +383,8 @@ class _ArrayInit:
 @contract(FIXED + ".__init__", props=P + ["C05"])
 class _FixedInit:
     params = dict(element_type=ObjOf(SERIALIZABLE), capacity=Int)
-    raises = {"InvalidNumberOfElementsError": lambda s: s.capacity < 1}
-
-    def pre(s):
-        return {"element-serializable": NOT(ISINST(s.element_type, "ServiceType"))}
+    raises = {"InvalidNumberOfElementsError": lambda s: s.capacity < 1,
+              "InvalidElementTypeError": lambda s: ISINST(s.element_type, "ServiceType")}
 
     def post(s):
         return {"fields": s.self._capacity == s.capacity}
@@ -397,12 +394,12 @@ class _FixedInit:
 class _VariableInit:
     params = dict(element_type=ObjOf(SERIALIZABLE), capacity=Int)
     raises = {"InvalidNumberOfElementsError": lambda s: s.capacity < 1,
+              "InvalidElementTypeError": lambda s: ISINST(s.element_type, "ServiceType"),
               # a capacity that no 64-bit length prefix can hold
               "InvalidBitLengthError": lambda s: s.capacity >= 2 ** 64}
 
     def pre(s):
-        return {"element-serializable": NOT(ISINST(s.element_type, "ServiceType")),
-                "engine-domain": s.capacity < 2 ** 128}
+        return {"engine-domain": s.capacity < 2 ** 128}
 
     def post(s):
         return {"fields": s.self._capacity == s.capacity}
@@ -431,6 +428,9 @@ class _CompositeInitAssumed:
 
     def post(s):
         return {"attributes-stored": _seq_same_refs(s.self._attributes, s.attributes),
+                # ServiceType._check_aggregation always reports a failure and CompositeType.__init__ raises
+                # AggregationError for any attribute whose type fails the aggregation check (verified under C05)
+                "service-types-rejected": FORALL_IDX(s.attributes, lambda i, a: NOT(ISINST(a._data_type, "ServiceType"))),
                 "scalars-stored": AND(EQ(s.self._version, s.version), IFF(s.self._deprecated, s.deprecated),
                                       EQ(s.self._fixed_port_id, s.fixed_port_id),
                                       IFF(s.self._has_parent_service, s.has_parent_service))}
@@ -460,8 +460,9 @@ class _StructAggregate:
 @loop_invariant(STRUCT + ".aggregate_bit_length_sets", loop=0)
 def _inv_struct_aggregate(s):
     ft = s.field_types
-    # after i iterations over field_types[1:], the first i+1 fields are folded
-    return {"prefix-folded": SETEQ(D(s.bls), SymSet(st.sfold_f(st.lmap_f(ft.arr), st.amap_f(ft.arr), s.i + 1)))}
+    # after i iterations over field_types[1:], the first i+1 fields are folded (none if there is no field at all)
+    n = ITE(LEN(ft) == 0, 0, s.i + 1)
+    return {"prefix-folded": SETEQ(D(s.bls), SymSet(st.sfold_f(st.lmap_f(ft.arr), st.amap_f(ft.arr), st._i(n))))}
 
 
 def _struct_aggregate_triggers(s):
@@ -518,17 +519,11 @@ class _StructInit:
     params = _COMPOSITE_PARAMS
     raises = dict(_COMPOSITE_RAISES)
 
-    def pre(s):
-        return {"field-types-serializable": _attr_fields_serializable(s)}
-
 
 @contract(UNION + ".__init__", props=P)
 class _UnionInit:
     params = _COMPOSITE_PARAMS
     raises = dict(_COMPOSITE_RAISES, MalformedUnionError=lambda s: LEN(FILTER(s.attributes, lambda a: ISINST(a, "Field"))) < 2)
-
-    def pre(s):
-        return {"field-types-serializable": _attr_fields_serializable(s)}
 
 
 @contract(DELIMITED + ".__init__", props=P + ["C05", "C14"])
